@@ -3,6 +3,7 @@ import Splipy.Lemmas.C16IntegralReal
 import Splipy.Lemmas.C16Quadrature
 import Splipy.Lemmas.C16Vector
 import Splipy.Lemmas.C16Center
+import Splipy.Lemmas.C16Model
 
 /-!
 # Property C16 — lengths, areas, volumes, centres and curvatures are representation independent
@@ -10,10 +11,11 @@ import Splipy.Lemmas.C16Center
 What is PROVED here (kernel-checked, any ordered field unless stated):
 
 * `C16_basis_integral_identity`, `C16_basis_integral_span`, `C16_basis_integral_continuity`,
-  `C16_basis_integral_real_partial`, `C16_basis_integrals_sum` — `BSplineBasis.integrate`: the
+  `C16_basis_integral_real`, `C16_basis_integrals_sum` — `BSplineBasis.integrate`: the
   tail-sum function `intF` it evaluates is, span by span, an antiderivative of the polynomial
-  piece of `B_{i,q}`; it is continuous across interior knots; over `ℝ` the per-span difference IS
-  Mathlib's interval integral; all integrals add up to `t1 − t0`.
+  piece of `B_{i,q}`; it is continuous across interior knots; over `ℝ`, for every sub-interval
+  `[a,b]` (any number of spans), `intF(b) − intF(a)` IS Mathlib's interval integral of `B_{i,q}`;
+  all integrals add up to `t1 − t0`.
 * `C16_quadrature_exact_polynomial` (+ `_basis`, `_tensor2`, `_tensor3`) — a rule that is exact for
   monomials up to degree `D` on `[-1,1]` (hypothesis `RuleExact`; Gauss–Legendre with `m` nodes has
   `D = 2m−1`), mapped to the knot spans as the code maps it, integrates every piecewise polynomial
@@ -23,6 +25,8 @@ What is PROVED here (kernel-checked, any ordered field unless stated):
 * `C16_frenet`, `C16_curvature_torsion_rigid`, `C16_curvature_torsion_scaling`,
   `C16_torsion_scalar_numerator_zero`.
 * `C16_center_equivariance`, `C16_center_equivariance_rational`, `C16_center_integral_mean`.
+* `C16_integrate_entry_spec_partial` — the executable model's `integrate` entry is `intF(t1) − intF(t0)`
+  given C01 for the extended basis.
 
 What is NOT proved (and cannot be an identity): the clauses of the property that are statements
 about the quadrature ERROR —
@@ -93,17 +97,44 @@ theorem C16_basis_integrals_sum (s0 s1 : Side) (τ : ℕ → K) (hτ : Monotone 
     ∑ i ∈ Finset.Ico 1 N, (intF s1 τ q N i t1 - intF s0 τ q N i t0) = t1 - t0 :=
   sum_intF_sub s0 s1 τ hτ μ0 μ1 q N hq0 hN0 hq1 hN1 t0 t1 h0 h1
 
+omit [IsStrictOrderedRing K] in
+/-- **Model ↔ specification for `integrate`.**  The executable model's list-comprehension entry
+`Basis.integrateEntry knot p N0 N1 i = (knot[i+p]-knot[i])/p · Σ_{j ≥ i}(N1[j] − N0[j])`
+(`Model/Measure.lean`, `p = q+1`) IS `intF(t1) − intF(t0)` as soon as the two rows hold the values
+of the order-`p+1` B-splines on the extended knots.  That premise is property C01 for the extended
+(non-periodic) basis: `C01_value_deriv_open` in `Properties/C01.lean` proves it for
+`Basis.evaluate`, with the side `effSide` (right, except left at the domain end).
+`_partial`: the premise is taken as hypothesis here instead of being discharged from `Basis.Valid`
+of the extended basis, and the bookkeeping around the entry (`N[1:]`, periodic collapse, clamping
+of `t0`, `t1`) is validated by the correspondence run only. -/
+theorem C16_integrate_entry_spec_partial (knot : Array K) (τ : ℕ → K) (q : ℕ) (N0 N1 : Array K)
+    (i : ℕ) (hi : i ≤ N0.size) (hk0 : knot.getD i 0 = τ i)
+    (hk1 : knot.getD (i + (q+1)) 0 = τ (i+q+1)) (s0 s1 : Side) (t0 t1 : K)
+    (h0 : ∀ j, j < N0.size → N0.getD j 0 = B s0 τ (q+1) j t0)
+    (h1 : ∀ j, j < N0.size → N1.getD j 0 = B s1 τ (q+1) j t1) :
+    Basis.integrateEntry knot (q+1) N0 N1 i
+      = intF s1 τ q N0.size i t1 - intF s0 τ q N0.size i t0 :=
+  integrateEntry_eq_intF knot τ q N0 N1 i hi hk0 hk1 s0 s1 t0 t1 h0 h1
+
 end integrals
 
-/-- **`integrate` is the integral** (`K = ℝ`, Mathlib's interval integral), one knot span:
-for `τ μ ≤ a < b ≤ τ (μ+1)`,  `∫_a^b B_{i,q} = intF(b⁻) − intF(a⁺)`.
-`_partial`: one span only.  For `[a,b]` reaching over several spans split the integral at the knots
-(`intervalIntegral.integral_add_adjacent_intervals`) and telescope with
-`C16_basis_integral_continuity`; that assembly is not carried out here. -/
-theorem C16_basis_integral_real_partial (s : Side) (τ : ℕ → ℝ) (hτ : Monotone τ) (μ q N i : ℕ)
-    (hN : μ < N) (a b : ℝ) (ha : τ μ ≤ a) (hab : a < b) (hb : b ≤ τ (μ+1)) :
-    ∫ x in a..b, B s τ q i x = intF .left τ q N i b - intF .right τ q N i a :=
-  integral_B_eq_intF s τ hτ μ q N i hN a b ha hab hb
+/-- **`integrate` is the integral** (`K = ℝ`, Mathlib's interval integral), any sub-interval.
+`τ` = extended knot vector, `a` in the span `μ0` (`τ μ0 ≤ a < τ (μ0+1)`), `a < b ≤ τ (μ0+k+1)`, and
+every point strictly between `a` and `b` occurs at most `q+1` times in `τ` (interior knots of a
+basis of order `p = q+1` have multiplicity `≤ p`).  Then `B_{i,q}` is integrable on `[a,b]` and
+
+  `∫_a^b B_{i,q}(x) dx = intF(b⁻) − intF(a⁺)`,
+
+the number `integrate(a,b)` returns for the extended index `i` (lower limit evaluated from the
+right, upper limit from the left — at an interior knot both sides agree,
+`C16_basis_integral_continuity`; at the domain end `evaluate` takes the left limit). -/
+theorem C16_basis_integral_real (s : Side) (τ : ℕ → ℝ) (hτ : Monotone τ) (q N i μ0 : ℕ) (a : ℝ)
+    (ha : τ μ0 ≤ a) (ha' : a < τ (μ0+1)) (k : ℕ) (hN : μ0 + k < N) (b : ℝ) (hab : a < b)
+    (hb : b ≤ τ (μ0+k+1))
+    (hm : ∀ ξ, a < ξ → ξ < b → ∀ j, τ j = ξ → τ (j+(q+1)) ≠ ξ) :
+    IntervalIntegrable (fun x => B s τ q i x) MeasureTheory.volume a b ∧
+      ∫ x in a..b, B s τ q i x = intF .left τ q N i b - intF .right τ q N i a :=
+  integral_B_eq_intF_multi s τ hτ q N i μ0 a ha ha' k hN b hab hb hm
 
 section quadrature
 
@@ -382,6 +413,13 @@ example : ∑ i ∈ Finset.Ico 1 7,
   C16_basis_integrals_sum .right .left (fun n : ℕ => (n : ℚ)) (fun _ _ h => Nat.cast_le.mpr h)
     3 4 2 7 (by norm_num) (by norm_num) (by norm_num) (by norm_num) (7/2) 5
     (by constructor <;> norm_num) (by constructor <;> norm_num)
+
+/-- `C16_basis_integral_real` on uniform real knots: `∫_{7/2}^{11/2} B_{1,2}` over three spans. -/
+example : ∫ x in (7/2 : ℝ)..(11/2), B .right (fun n : ℕ => (n : ℝ)) 2 1 x
+    = intF .left (fun n : ℕ => (n : ℝ)) 2 9 1 (11/2) - intF .right (fun n : ℕ => (n : ℝ)) 2 9 1 (7/2) :=
+  (C16_basis_integral_real .right (fun n : ℕ => (n : ℝ)) (fun _ _ h => Nat.cast_le.mpr h) 2 9 1 3
+    (7/2) (by norm_num) (by norm_num) 2 (by norm_num) (11/2) (by norm_num) (by norm_num)
+    (fun ξ _ _ j hj => by rw [← hj]; push_cast; linarith)).2
 
 /-- Rules satisfying `RuleExact`: midpoint = 1-point Gauss–Legendre (`D = 1`), Simpson (`D = 3`);
 `ruleExact_gauss2` gives the 2-point Gauss–Legendre rule in any field with a root of `1/3`. -/
